@@ -33,6 +33,11 @@
 (*                block of the (single) matching log on the chain, Nil=none*)
 (*   u.gen[s]     how many key generations set s may go through (0: its    *)
 (*                eon never starts, 1: no restart, 2: one restart)         *)
+(*   u.http, u.ro the operator's config file: HTTPEnabled, and the          *)
+(*                HTTPReadOnly key: "absent" | "true" | "false"            *)
+(*   u.wd         OBSERVED only: write operations are enabled in the       *)
+(*                config parsed from a file with HTTPEnabled = true and no *)
+(*                HTTPReadOnly key (the spec's value is WriteEnabledByDefault) *)
 (* A slot with set = 0 is unused in that universe (never registered).      *)
 (* Tables are the projected database tables (see harness/service Abs).     *)
 (* Eon numbers are static: generation g of set s is eon 2*(g-1)+s with     *)
@@ -144,6 +149,16 @@ HandleTrigger(u, st, tr) ==
                  ELSE [st |-> [st EXCEPT !.shared = @ \cup {<<s, tr.ids[k]>> : k \in DOMAIN tr.ids}],
                        msg |-> [sent |-> TRUE, set |-> s, ids |-> tr.ids, key |-> e.eon]]
 
+(* Third trigger source: keyper/kprapi POST /v1/decryptionTrigger.  KeyperCore.getServices fans the
+   API's trigger channel into the same KeyShareHandler when HTTPEnabled; the endpoint is a write
+   operation, refused (403) by kproapi.ConfigMiddleware unless GetEnableWriteOperations().
+   shutterservice.Config.SetDefaultValues: HTTPReadOnly = true; a key present in the file wins. *)
+ReadOnlyDefault == TRUE
+HTTPReadOnly(u) == IF u.ro = "absent" THEN ReadOnlyDefault ELSE u.ro = "true"
+WriteEnabled(u) == u.http /\ ~HTTPReadOnly(u)                     \* kprconfig.Config.GetEnableWriteOperations
+WriteEnabledByDefault == TRUE /\ ~ReadOnlyDefault                 \* HTTPEnabled = true, key absent
+USlotSet(u, x) == IF x \in TimeIds THEN u.ids[x].set ELSE u.trg[x - NI].set
+
 (* the triggers of one block in a canonical order (time-based first, as sendTriggers is called;
    inside each part Go's map order is arbitrary - irrelevant because the sets differ) *)
 OrderTrigs(S) == SetToSortSeq(S, LAMBDA a, b : a.blk < b.blk \/ (a.blk = b.blk /\ a.ids[1] < b.ids[1]))
@@ -189,6 +204,7 @@ Enabled(u, st, op) ==
             /\ \E k \in DOMAIN op.ids : ~SlotDec(st, op.ids[k])
             /\ DkgOk(st, SlotSet(st, op.ids[1]))
       [] op.k = "restart" -> st.latest # Nil
+      [] op.k = "manual" -> u.http /\ USlotSet(u, op.a) # 0        \* somebody POSTs an identity of this universe
       [] OTHER -> FALSE
 
 (* [st, out] *)
@@ -214,6 +230,9 @@ Apply(u, st, op) ==
              out |-> <<>>]
       [] op.k = "restart" -> \* Keyper.Start: latestTriggeredTime = nil; the database survives
             [st |-> [st EXCEPT !.latest = Nil], out |-> <<>>]
+      [] op.k = "manual" ->  \* POST {epoch_id: identity op.a, block_number: activation block of its set}
+            IF ~WriteEnabled(u) THEN [st |-> st, out |-> <<>>]     \* ConfigMiddleware: 403
+            ELSE HandleAll(u, st, <<[blk |-> u.act[USlotSet(u, op.a)], ids |-> <<op.a>>]>>, <<>>)
 
 ----------------------------------------------------------------------------
 (* Property layer: evaluated on ONE observed step.                          *)
@@ -230,7 +249,13 @@ Known(x) == x \in TimeIds \/ x \in EvIds
 AllIds(out) == UNION {SeqToSet(out[k].ids) : k \in DOMAIN out}
 
 (* nothing is triggered outside the processing of a block *)
-C02_Quiet(u, gh, pre, op, out) == op.k # "block" => out = <<>>
+C02_Quiet(u, gh, pre, op, out) == op.k \notin {"block", "manual"} => out = <<>>
+
+(* the HTTP trigger path: with the DEFAULT configuration (HTTPReadOnly not mentioned by the operator)
+   nothing is triggered on request - release conditions are only checked on the block path, so an
+   accepted request contributes a key share for an identity whatever its release condition.  An
+   operator who explicitly sets HTTPReadOnly = false has asked for it; that is outside C02. *)
+C02_ManualGated(u, gh, pre, op, out) == (op.k = "manual" /\ u.ro # "false") => out = <<>>
 
 (* every triggered identity is a registered one *)
 C02_Registered(u, gh, pre, op, out) == \A x \in AllIds(out) : Known(x) /\ SlotReg(pre, x)
@@ -285,6 +310,8 @@ X_ShareSet(u, gh, pre, op, out) ==
 InfoMonitors == {"X_ShareSet"}
 
 Failed(u, gh, pre, op, out) ==
+  IF op.k = "manual" THEN (IF C02_ManualGated(u, gh, pre, op, out) THEN {} ELSE {"C02_ManualGated"})
+  ELSE
     (IF C02_Quiet(u, gh, pre, op, out) THEN {} ELSE {"C02_Quiet"}) \cup
     (IF C02_Registered(u, gh, pre, op, out) THEN {} ELSE {"C02_Registered"}) \cup
     (IF C02_TimeStrict(u, gh, pre, op, out) THEN {} ELSE {"C02_TimeStrict"}) \cup
